@@ -1579,4 +1579,116 @@ theorem crypt_filter_constants :
 example : getCfm 4 nameAESV2 = some .aes128 ∧ getCfm 4 nameAESV3 = none ∧ getCfm 5 nameAESV3 = some .aes256 ∧
     getCfm 5 nameV2 = none ∧ getCfm 4 nameIdentity = none := by decide
 
+/-! ## wrong passwords at the level of the whole `_initialize_password` -/
+
+/-- For every well-formed configuration and every password, an error of the selected class's
+    `authenticate` is the error `_initialize_password` raises: no earlier check (Filter, registry,
+    revision, StmF = StrF, CFM names, StrF defined) can fail for a writer's dictionary. -/
+theorem C10_open_error_of_authenticate (P : Prims) (cfg : Config) (pw : Passwords) (rnd : Rand)
+    (hw : cfg.wf) (cps : List Nat) (e : Err)
+    (ha : cfg.authenticate P (cfg.encryptDict P pw rnd) cps = .error e) :
+    openHandler P (cfg.encryptDict P pw rnd) cps = .error e := by
+  cases cfg with
+  | base v c =>
+    obtain ⟨hv', hr, hl⟩ := hw
+    unfold openHandler
+    simp only [Config.authenticate, Config.encryptDict, params234] at ha ⊢
+    rcases hv' with h1 | h1 <;> rcases hr with h2 | h2 <;>
+      simp [h1, h2, HANDLER_REGISTRY, openHandler.lookup', SUPPORTED_REVISIONS_BASE] at ha ⊢ <;>
+      simp [ha]
+  | v4 c cfName m =>
+    obtain ⟨hr, hl, hm, hcf⟩ := hw
+    unfold openHandler
+    simp only [Config.authenticate, Config.encryptDict] at ha ⊢
+    rcases hm with h | h | h <;> subst h <;>
+      simp [withCryptFilter, params234, hr, HANDLER_REGISTRY, openHandler.lookup', SUPPORTED_REVISIONS_V4,
+        buildCfm, getCfm_eq, FORCED_LENGTH_V4, cfmName, lookup, hcf, nameV2, nameAESV2] at ha ⊢ <;>
+      simp [ha, hcf, lookup]
+  | v5 r p cfName em =>
+    obtain ⟨hr, hcf⟩ := hw
+    unfold openHandler
+    simp only [Config.authenticate, Config.encryptDict] at ha ⊢
+    rcases hr with h | h <;> subst h <;>
+      simp [withCryptFilter, params56, HANDLER_REGISTRY, openHandler.lookup', SUPPORTED_REVISIONS_V5,
+        buildCfm, getCfm_eq, FORCED_LENGTH_V5, cfmName, lookup, hcf, nameAESV3] at ha ⊢ <;>
+      simp [ha, hcf, lookup]
+
+/-- The cryptographic assumptions under which a password that is neither the user's nor the
+    owner's is rejected: R2-R4 - H1 and H2 of `C10_rejects_writer_partial` and "pads to neither";
+    R5/R6 - its two validation hashes collide with neither stored hash. -/
+def Config.wrongPassword (P : Prims) : Config → Passwords → Rand → List Nat → Prop
+  | .base v c, pw, rnd, cps =>
+    let prm := params234 c v (derive234 P c (pad32 pw.user) (pad32 pw.owner) rnd.tail).1
+                (derive234 P c (pad32 pw.user) (pad32 pw.owner) rnd.tail).2.1
+    (∀ q : Bytes, verifyKey P prm (alg2Key P c (pad32 q) prm.o) = true → pad32 q = pad32 pw.user) ∧
+    (∀ q : Bytes, recoverUser P prm c.length q = pad32 pw.user → pad32 q = pad32 pw.owner) ∧
+    (∀ b, encodeLatin1 cps = some b → pad32 b ≠ pad32 pw.user ∧ pad32 b ≠ pad32 pw.owner)
+  | .v4 c _ _, pw, rnd, cps =>
+    let prm := params234 c 4 (derive234 P c (pad32 pw.user) (pad32 pw.owner) rnd.tail).1
+                (derive234 P c (pad32 pw.user) (pad32 pw.owner) rnd.tail).2.1
+    (∀ q : Bytes, verifyKey P prm (alg2Key P c (pad32 q) prm.o) = true → pad32 q = pad32 pw.user) ∧
+    (∀ q : Bytes, recoverUser P prm c.length q = pad32 pw.user → pad32 q = pad32 pw.owner) ∧
+    (∀ b, encodeLatin1 cps = some b → pad32 b ≠ pad32 pw.user ∧ pad32 b ≠ pad32 pw.owner)
+  | .v5 r _ _ _, pw, rnd, cps =>
+    (∃ e, normalizePassword P r cps = .error e ∧ e = .passwordIncorrect) ∨
+    ∃ b, normalizePassword P r cps = .ok b ∧
+      passwordHash P r b rnd.salts.ov (derive56 P r rnd.fileKey pw.user pw.owner rnd.salts).1
+        ≠ passwordHash P r pw.owner rnd.salts.ov (derive56 P r rnd.fileKey pw.user pw.owner rnd.salts).1 ∧
+      passwordHash P r b rnd.salts.uv [] ≠ passwordHash P r pw.user rnd.salts.uv []
+
+/-- **Every other password is rejected with the password-incorrect error**, for the whole
+    `_initialize_password` and every configuration.  `_partial`: the assumptions are exactly those
+    collected in `Config.wrongPassword` (no-collision clauses for MD5/RC4 resp. the password hash);
+    handler selection, `init_params`, padding, Latin-1 / SASLprep / UTF-8 steps are proved. -/
+theorem C10_wrong_password_rejected_partial (P : Prims) (hP : PrimsOK P) (cfg : Config) (pw : Passwords)
+    (rnd : Rand) (hv : cfg.valid P pw rnd) (cps : List Nat) (hwp : cfg.wrongPassword P pw rnd cps) :
+    openHandler P (cfg.encryptDict P pw rnd) cps = .error .passwordIncorrect := by
+  apply C10_open_error_of_authenticate P cfg pw rnd (Config.valid_wf P cfg pw rnd hv)
+  cases cfg with
+  | base v c =>
+    obtain ⟨_, hr, hl, _⟩ := hv
+    obtain ⟨H1, H2, hw⟩ := hwp
+    have hr' : c.r = 2 ∨ c.r = 3 ∨ c.r = 4 := by rcases hr with h | h <;> simp [h]
+    exact C10_rejects_writer_partial P c v pw.user pw.owner rnd.tail cps hr' hl H1 H2 hw
+  | v4 c cfName m =>
+    obtain ⟨hr, hl, _⟩ := hv
+    obtain ⟨H1, H2, hw⟩ := hwp
+    have h := C10_rejects_writer_partial P c 4 pw.user pw.owner rnd.tail cps (Or.inr (Or.inr hr))
+      (by omega) H1 H2 hw
+    rw [hl] at h
+    exact h
+  | v5 r p cfName em =>
+    obtain ⟨_, _, hs, _⟩ := hv
+    rcases hwp with ⟨e, hn, he⟩ | ⟨b, hn, hno, hnu⟩
+    · subst he
+      show authenticate56 P _ cps = .error .passwordIncorrect
+      unfold authenticate56
+      simp only [Config.encryptDict, withCryptFilter, params56] at hn ⊢
+      rw [hn]
+    · exact r56_rejects_writer_partial P hP r rnd.fileKey pw.user pw.owner b rnd.salts hs cps hn hno hnu
+
+/-! ## file-key lengths -/
+
+/-- **Length of the file key** for every R2-R4 configuration: 5 bytes for revision 2 whatever
+    `Length` says, `Length / 8` (at most 16) for revisions 3 and 4 - hence 16 for every V4
+    document. -/
+theorem C10_file_key_length (P : Prims) (hP : PrimsOK P) (c : Cfg) (pu o : Bytes)
+    (hr : c.r = 2 ∨ c.r = 3 ∨ c.r = 4) :
+    (alg2Key P c pu o).length = if c.r = 2 then 5 else min (c.length / 8) 16 := by
+  rcases hr with h | h | h
+  · unfold alg2Key keyLen
+    simp [h, hP.md5_len]
+  · rw [alg2Key_length P hP.md5_len c pu o (by omega)]
+    simp [keyLen, h]
+  · rw [alg2Key_length P hP.md5_len c pu o (by omega)]
+    simp [keyLen, h]
+
+/-- non-vacuity of `Config.wrongPassword`: a password SASLprep-independent (R5) whose hashes differ -/
+example : (Config.v5 5 (-4) [83] true).wrongPassword toyPrims
+    { userCps := [117], user := [117], owner := [111] }
+    { tail := [], fileKey := List.replicate 32 7,
+      salts := ⟨List.replicate 8 1, List.replicate 8 2, List.replicate 8 3, List.replicate 8 4⟩ } [120] := by
+  refine Or.inr ⟨[120], by simp [normalizePassword, encodeUtf8, utf8Char, UTF8_PASSWORD_MAX], ?_, ?_⟩ <;>
+    simp [passwordHash, toyPrims]
+
 end PdfVerif.Props.C10
